@@ -66,6 +66,11 @@ def job(mode, d):
         slots.put(i)
 
 def main():
+    # one run at a time: the scratch worktrees under /tmp/parwt are shared
+    import fcntl
+    os.makedirs("/tmp/parwt", exist_ok=True)
+    lock = open("/tmp/parwt/.lock", "w")
+    fcntl.flock(lock, fcntl.LOCK_EX)
     if len(sys.argv) >= 2 and sys.argv[1] == "--clean":
         clean(); return 0
     mode, dirs = sys.argv[1], [os.path.abspath(d) for d in sys.argv[2:] if os.path.isfile(os.path.join(d, "patch.diff"))]
